@@ -69,7 +69,7 @@ def run_case(c):
     out["max_dev"] = hx(float(np.max(np.abs(fr.fs - (fr.fmin + j * fr.df))))) if F else hx(0.0)
     out["roundtrip_all"] = bool(np.array_equal(fr.get_index(fr.get_frequency(j)), j))
     out["index_of_fs_all"] = bool(np.array_equal(fr.get_index(fr.fs), j))
-    out["ts_max_dev"] = hx(float(np.max(np.abs(fr.ts - np.arange(T) * fr.dt)))) if T else hx(0.0)
+    out["ts_max_dev"] = hx(float(np.max(np.abs(fr.ts - np.arange(T) * fr.dt)))) if (T and len(fr.ts) == T) else hx(0.0 if not T else float("inf"))
     out["fs0_is_fmin"] = bool(fr.fs[0] == fr.fmin); out["fsN_is_fmax"] = bool(fr.fs[-1] == fr.fmax)
     # opposite-orientation twin over the same band
     if fr.ascending:
@@ -78,7 +78,7 @@ def run_case(c):
         tw = build(c, ascending=True, fch1=float(fr.fmin))
     out["twin_fs_dev"] = hx(float(np.max(np.abs(tw.fs - fr.fs)))) if tw.fs.shape == fr.fs.shape else None
     out["twin_ts_equal"] = bool(np.array_equal(tw.ts, fr.ts))
-    if F >= 8 and T >= 2:
+    if F >= 8 and T >= 2 and len(fr.ts) == T and len(fr.fs) == F:
         f0 = fr.get_frequency(F // 3) + 0.25 * fr.df
         a = fr.add_constant_signal(f_start=f0, drift_rate=0.5 * fr.df / fr.dt, level=1.0, width=2.5 * fr.df, f_profile_type="box")
         b = tw.add_constant_signal(f_start=f0, drift_rate=0.5 * fr.df / fr.dt, level=1.0, width=2.5 * fr.df, f_profile_type="box")
@@ -87,9 +87,17 @@ def run_case(c):
     return out
 
 
+def safe(c):
+    try:
+        return run_case(c)
+    except Exception as ex:
+        import traceback
+        return dict(crash="%s: %s" % (type(ex).__name__, str(ex)[:200]), where=traceback.format_exc()[-400:])
+
+
 def main():
     payload = json.load(sys.stdin)
-    json.dump([run_case(c) for c in payload["cases"]], open(sys.argv[1], "w"))
+    json.dump([safe(c) for c in payload["cases"]], open(sys.argv[1], "w"))
 
 
 if __name__ == "__main__":
